@@ -201,7 +201,7 @@ func genC01(r *h.Rng, tier string, idx int) *h.Plan {
 			events = append(events, map[string]interface{}{"tags": []interface{}{1.0, "1"}})
 		}
 	}
-	if r.P(1, 5) {
+	if r.P(1, 3) {
 		// one storage call of the history fails: the operation it belongs to reports
 		// an error, and whatever it leaves behind is one consistent thing - a rule
 		// that the location still hands out is still dispatched
